@@ -697,6 +697,30 @@ def r12_table_refusals_look_at_documented_columns(ctx):
         ctx.unknown("C18.R12", f, f.node, "no refusal about the visit table found in the validation", construct="refusals about the visit table")
 
 
+def r13_features_are_a_list(ctx):
+    """The documented requirement on `features` is a non-empty *list* of non-empty strings, and the generation relies on it: the long table
+    is re-ordered with `df[self.features]`, where pandas reads a tuple as ONE column label.  The container test of `_check_features` is
+    therefore `isinstance(self.features, list)` - a wider test accepts designs that die midway with another error."""
+    ctx.rule("C18.R13", "`features` is refused unless it is a list (the generation selects columns with it)", 1)
+    f = ctx.ix.func(SIM, f"{CLS}._check_features", "C18.R13")
+    ctx.analysed(f)
+    cfg = CFG(f.node)
+    tests = [(cfg.stmt[h].test, lab) for r in cfg.nodes(lambda s_: isinstance(s_, ast.Raise)) for h, lab in cfg.if_guards(r)]
+    cont = {U(t): (t, lab) for t, lab in tests if lab is True and any(isinstance(c, ast.Call) and U(c.func) == "isinstance" and c.args and U(c.args[0]) == "self.features" for c in ast.walk(t))}
+    cont = list(cont.values())
+    if not cont:
+        ctx.violation("C18.R13", f, f.node, "`_check_features` no longer refuses a `features` value by its container type", construct="container test of features")
+        return
+    for t, lab in cont:
+        ok = U(t) in ("not isinstance(self.features, list)",) and lab is True
+        types = [U(c.args[1]) for c in ast.walk(t) if isinstance(c, ast.Call) and U(c.func) == "isinstance" and len(c.args) == 2]
+        ctx.check(ok, "C18.R13", f, t, "features refused unless `isinstance(self.features, list)`",
+                  f"`{U(t)[:70]}` accepts more than a list ({types}): the generation selects the feature columns with `df[self.features]`, which reads a tuple as a single column label - such a design "
+                  "is not refused before anything is generated and dies midway with a KeyError", construct="container test of features")
+    uses = [x for g in ctx.ix.iter_funcs() if g.mod == SIM for x in ast.walk(g.node) if isinstance(x, ast.Subscript) and U(x.slice) == "self.features"]
+    ctx.ok("C18.R13", f, f.node, f"{len(uses)} column selection(s) `...[self.features]` in the simulation module rely on it", construct="column selections by features")
+
+
 def rules(ctx):
     r1_validate_before_use(ctx)
     r2_none_use(ctx)
@@ -710,6 +734,7 @@ def rules(ctx):
     r10_no_division_by_a_design_parameter(ctx)
     r11_sources_standardised_per_source(ctx)
     r12_table_refusals_look_at_documented_columns(ctx)
+    r13_features_are_a_list(ctx)
     # whether a design is accepted depends on the design alone: the tables of requirements / defaults of the class are never written
     # (same rule as C13.R5, restricted to the simulation package)
     from .c13 import r5_shared_defaults
